@@ -20,8 +20,8 @@ Definition Cf st fd c fns init := mkSpec st fd (SConfined c fns) init [].
 Definition Rc st fd code := mkSpec st fd (SRacy code) [] [].
 
 (* finding codes (>= 20), one per racy field *)
-Definition c_hub_connections : N := 20.            (* racy:Hub.connections *)
-Definition c_ship_smeError : N := 21.              (* racy:ShipConnection.smeError *)
+(* 20 racy:Hub.connections and 21 racy:ShipConnection.smeError were repaired in /repo
+   (known_findings.json "fixed"); the numbers are not reused *)
 Definition c_ship_lastWaiting : N := 22.           (* racy:ShipConnection.lastReceivedWaitingValue *)
 Definition c_mdns_autoaccept : N := 23.            (* racy:MdnsManager.autoaccept *)
 Definition c_mdns_provider : N := 24.              (* racy:MdnsManager.mdnsProvider *)
@@ -55,7 +55,7 @@ Definition ship_readpump_shipid := ["ShipConnection.handshakeAccessMethods_Reque
 
 Definition guard_spec : list fspec := [
   (* hub.Hub *)
-  GX "Hub" "connections" "muxCon" hub_new [("Hub.Shutdown", c_hub_connections)];
+  G "Hub" "connections" "muxCon" hub_new;
   G "Hub" "connectionAttemptCounter" "muxConAttempt" hub_new;
   G "Hub" "connectionAttemptRunning" "muxConAttempt" hub_new;
   Im "Hub" "port" hub_new;
@@ -77,7 +77,7 @@ Definition guard_spec : list fspec := [
   Cf "ShipConnection" "dataReader" "readpump" ship_readpump_reader ship_new;
   Im "ShipConnection" "dataWriter" ship_new;
   G "ShipConnection" "smeState" "mux" ship_new;
-  GX "ShipConnection" "smeError" "mux" ship_new [("ShipConnection.ShipHandshakeState", c_ship_smeError)];
+  G "ShipConnection" "smeError" "mux" ship_new;
   G "ShipConnection" "handshakeTimerRunning" "handshakeTimerMux" ship_new;
   G "ShipConnection" "handshakeTimerType" "handshakeTimerMux" ship_new;
   G "ShipConnection" "handshakeTimerStopChan" "handshakeTimerMux" ship_new;
@@ -153,7 +153,7 @@ Definition guard_spec : list fspec := [
 
 (* every finding code used by the table *)
 Definition finding_codes : list N :=
-  [c_hub_connections; c_ship_smeError; c_ship_lastWaiting; c_mdns_autoaccept; c_mdns_provider;
+  [c_ship_lastWaiting; c_mdns_autoaccept; c_mdns_provider;
    c_mdns_report; c_avahi_shutdownChan; c_avahi_addServiceChan; c_avahi_removeServiceChan].
 
 (* the check evaluated by bin/check on every fact *)
